@@ -283,12 +283,10 @@ def walk_own(fn: ast.AST) -> Iterator[ast.AST]:
     while todo:
         n = todo.pop()
         yield n
-        for ch in ast.iter_child_nodes(n):
-            if isinstance(ch, (ast.FunctionDef, ast.AsyncFunctionDef, ast.Lambda, ast.ClassDef)):
-                # the def statement itself is visible (decorators, defaults), its body is not
-                yield ch
-                continue
-            todo.append(ch)
+        if isinstance(n, (ast.FunctionDef, ast.AsyncFunctionDef, ast.Lambda, ast.ClassDef)):
+            # the def statement itself is visible, its body belongs to the nested scope
+            continue
+        todo.extend(ast.iter_child_nodes(n))
 
 
 def walk_all(fn: ast.AST) -> Iterator[ast.AST]:
